@@ -410,6 +410,10 @@ func init() {
 			}
 			if len(x.Viol) > 0 {
 				fmt.Printf("%s: %s %s: %.200s\n", name, x.Viol[0].Property, x.Viol[0].Key, x.Viol[0].What)
+			} else if os.Getenv("DBG_SUFFIX") != "" && !x.Dead() {
+				if sr := x.FairSuffix(40); !sr.Quiescent {
+					fmt.Printf("%s: not quiescent after 40 fair cycles: %s\n", name, sr.Reason)
+				}
 			}
 			x.Close()
 		}
